@@ -466,7 +466,7 @@ verus_unit(
     },
 )
 for _n in ("2", "3", "4"):
-    kani("models::lookup_noncontiguous_fast_counts_" + _n, ["C19", "C20", "C10"], kind="bounded", bound="3 probabilities, " + _n + " symbols, P=4",
+    kani("models::lookup_noncontiguous_fast_counts_" + _n, ["C19", "C20", "C10"], kind="bounded", bound="3 probabilities, " + _n + " symbols, P=3",
          fns=[M + "categorical/lookup_noncontiguous.rs::NonContiguousLookupDecoderModel::{from_symbols_and_floating_point_probabilities_fast,from_symbol_table,quantile_function}"],
          text="Ok iff #symbols == #probabilities; every quantile of an accepted model is answered in bounds")
 kani("models::fast_f32_n2_p8", ["C19", "C03", "C20"], kind="bounded", bound="2 f32 entries (all bit patterns)", timeout=1200,
